@@ -347,25 +347,29 @@ def run(chk):
             if not k.startswith(root + "::"):
                 continue
             names = {c.callee.get("name") for c in b.calls(normal_only=True)}
-            if "http_status" in names:
+            if "http_status" in names and "stream_payload" not in names:
                 http = b
             if "stream_payload" in names:
                 grpc = b
         if http is None or grpc is None:
             raise mir.AnchorMissing("the HTTP / gRPC response closures in OtlpTransportBuilder::build")
         out = []
-        for b, what, want in ((http, "HTTP", set(range(200, 300))), (grpc, "gRPC", {0})):
+        cases = [(http, "HTTP", set(range(200, 300)), lambda so: True), (grpc, "gRPC", {0}, lambda so: "http_status" not in o_str(so))]
+        if any(c.callee.get("name") == "http_status" for c in grpc.calls(normal_only=True)):
+            # the gRPC handler also tests the HTTP status of the response (a proxy's error has no grpc-status): that test has its own value set
+            cases.append((grpc, "HTTP (gRPC transport)", set(range(200, 300)), lambda so: "http_status" in o_str(so)))
+        for b, what, want, mine in cases:
             oks = [bb for bb, j, s in b.statements(normal_only=True) if s["k"] == "assign" and s["place"]["l"] == 0 and "p" not in s["place"]
                    and s["rv"]["k"] == "agg" and s["rv"].get("variant") == "Ok"]
             if not oks:
                 return False, "%s response handler never succeeds" % what, [], b.span
             accepted = set()
-            universe = range(0, 1024) if what == "HTTP" else range(0, 64)
+            universe = range(0, 1024) if what.startswith("HTTP") else range(0, 64)
             for bb in oks:
                 cons = []
                 for gbb, vals, n in b.guards_of(bb):
                     so = b.switch_origin(gbb)
-                    if so[0] == "binop" and so[1] in ("Ge", "Gt", "Le", "Lt", "Eq", "Ne"):
+                    if so[0] == "binop" and so[1] in ("Ge", "Gt", "Le", "Lt", "Eq", "Ne") and mine(so):
                         k = mir.o_const_value(so[3])
                         if isinstance(k, int):
                             cons.append((so[1], k, list(vals) != ["0"]))
@@ -381,8 +385,8 @@ def run(chk):
                 extra = sorted(accepted - exp)[:5]
                 missing = sorted(exp - accepted)[:5]
                 return False, ("%s responses counted as success: extra %s, missing %s (success must be exactly %s)"
-                               % (what, extra, missing, "200..=299" if what == "HTTP" else "grpc-status 0")), [], b.span
-            out.append("%s: %s" % (what, "200..=299" if what == "HTTP" else "{0}"))
+                               % (what, extra, missing, "200..=299" if what.startswith("HTTP") else "grpc-status 0")), [], b.span
+            out.append("%s: %s" % (what, "200..=299" if what.startswith("HTTP") else "{0}"))
         return True, "", out
     chk.ob("C12.R5:status", "a request counts as acknowledged exactly for HTTP 2xx / grpc-status 0", status_sets)
 
@@ -686,6 +690,7 @@ def run(chk):
     shapes.tls_iff_https(chk, P, "C12.R4:tls-iff-https")
     shapes.response_read_to_end(chk, P, "C12.R5:response-read-to-end")
     shapes.grpc_status_in_headers_too(chk, P, "C12.R5:grpc-status-in-headers")
+    shapes.every_handler_checks_http_status(chk, P, "C12.R5:every-handler-checks-http-status")
     shapes.end_stream_iff_nothing_left(chk, P, "C12.R10:end-of-request-body")
     _call = lambda nm: (lambda o, b: o[0] == "call" and o[1].callee.get("name") == nm)
     shapes.returns_binop(chk, P, "C12.R10:content-length", "the declared content length of a request is its framing prefix plus its payload",
